@@ -176,7 +176,7 @@ ObserveBudget(m) ==
 \* one cpuset round with budget q: `set` applied to the BE containers (if written), `root` = BE root cpuset afterwards
 ApplyCPUSet(q, written, set, root) ==
   /\ CPUSetOK(inp, be, q, written, set)
-  /\ inp.kubelet = "static" => RecoverOK(inp, root)  \* static policy: upper levels get the recovered set
+  /\ (inp.kubelet = "static" /\ written) => RecoverOK(inp, root)  \* static policy: a round that applies a set gives the upper levels the recovered one
   /\ be' = ToSet(root)
   /\ UNCHANGED <<inp, quota, last, due>>
 
